@@ -39,6 +39,9 @@ pub enum Op {
     /// pushes to two different keys pipelined in one write (both keys become ready in the same
     /// event-loop round)
     PushPush { c: usize, key: usize, right: bool },
+    /// LPUSH key e, DEL key, SET key v pipelined in one write: by the time the wake-up runs the
+    /// key holds a string; afterwards the key is deleted again
+    Retype { c: usize, key: usize },
     Wait { ms: u32 },
     /// keeps the single-threaded server busy (the SLEEP test command on the control connection):
     /// every deadline that passes meanwhile is met by one and the same timeout sweep
@@ -61,6 +64,7 @@ fn op() -> BoxedStrategy<Op> {
         2 => (0..NCLIENTS, 0..3usize, any::<bool>()).prop_map(|(c, key, right)| Op::Pop { c, key, right }),
         1 => (0..NCLIENTS, 0..3usize).prop_map(|(c, key)| Op::Batch { c, key }),
         2 => (0..NCLIENTS, 0..3usize, any::<bool>()).prop_map(|(c, key, right)| Op::PushPush { c, key, right }),
+        1 => (0..NCLIENTS, 0..3usize).prop_map(|(c, key)| Op::Retype { c, key }),
         1 => prop_oneof![Just(30u32), Just(120u32), Just(450u32)].prop_map(|ms| Op::Wait { ms }),
         1 => prop_oneof![Just(300u32), Just(700u32)].prop_map(|ms| Op::Stall { ms }),
         1 => (0..NCLIENTS).prop_map(|c| Op::Disconnect { c }),
@@ -487,6 +491,41 @@ fn run_history(server: &mut Server, ops: &[Op]) -> CaseResult {
                     s.expect_served(due, &after)?;
                     s.expect_silence(&after)?;
                 }
+                Op::Retype { c, key } => {
+                    let e = s.fresh(1).pop().unwrap();
+                    s.pushed += 1;
+                    let before = s.lists[*key].len();
+                    if !s.queues[*key].is_empty() {
+                        s.labels.insert("key-retyped-before-the-wake-up");
+                    }
+                    let mut w = encode_cmd(&[b"LPUSH".as_ref(), KEYS[*key].as_bytes(), &e]);
+                    w.extend(encode_cmd(&["DEL", KEYS[*key]]));
+                    w.extend(encode_cmd(&["SET", KEYS[*key], "not-a-list"]));
+                    let actor = if s.blocked[*c].is_some() { &mut s.ctl } else { &mut s.clients[*c] };
+                    let _ = actor.send_raw(&w);
+                    let (r1, r2, r3) = (actor.reply(), actor.reply(), actor.reply());
+                    // with a waiter present the element may be handed over between the commands:
+                    // then DEL finds nothing (as in the batch operation, either is allowed)
+                    let served_between = r2 == Reply::Frame(Frame::Int(0)) && !s.queues[*key].is_empty() && before == 0;
+                    if r1 != Reply::Frame(Frame::Int(before as i64 + 1)) || !(r2 == Reply::Frame(Frame::Int(1)) || served_between) || r3 != Reply::Frame(Frame::ok()) {
+                        return fail("push-reply", format!("{}: LPUSH, DEL, SET must reply {}, 1, OK; got {:?}, {:?}, {:?}", after, before + 1, r1, r2, r3));
+                    }
+                    let mut due = Vec::new();
+                    if served_between {
+                        s.lists[*key].push_front(e);
+                        due = s.serve(*key);
+                    }
+                    s.delivered += s.lists[*key].len() as u64; // deleted with the key
+                    s.lists[*key].clear();
+                    s.barrier()?;
+                    s.expect_served(due, &after)?;
+                    s.expect_silence(&after)?;
+                    let r = s.ctl.cmd(&["DEL", KEYS[*key]]);
+                    if r != Reply::Frame(Frame::Int(1)) {
+                        return fail("list-content", format!("{}: the key must hold the string that was SET; DEL -> {:?}", after, r));
+                    }
+                    s.barrier()?;
+                }
                 Op::Wait { ms } => {
                     std::thread::sleep(Duration::from_millis(*ms as u64));
                     s.settle(Duration::ZERO)?;
@@ -581,7 +620,15 @@ fn run_history(server: &mut Server, ops: &[Op]) -> CaseResult {
     }
     match r {
         Ok(()) => CaseResult { verdict: Verdict::Pass, labels, nontrivial, excluded: vec![], trace },
-        Err((what, sig)) if sig == "infra" => CaseResult { verdict: Verdict::Infra(what), labels, nontrivial, excluded: vec![], trace },
+        Err((what, sig)) if sig == "infra" => {
+            // a control connection that stops answering because the server process is gone is no
+            // infrastructure problem
+            if !server.alive() {
+                let died = format!("the server process ended during the history ({}); last operations: {}", server.panic_signature().unwrap_or_else(|| server.stderr_tail().lines().last().unwrap_or("").to_string()), what);
+                return CaseResult { verdict: Verdict::Fail { what: died, sig: "server-died".into() }, labels, nontrivial, excluded: vec![], trace };
+            }
+            CaseResult { verdict: Verdict::Infra(what), labels, nontrivial, excluded: vec![], trace }
+        }
         Err((_, sig)) if sig == "inconclusive-timing" => {
             labels.push("inconclusive-timing".into());
             CaseResult { verdict: Verdict::Pass, labels, nontrivial: false, excluded: vec![], trace }
@@ -601,6 +648,7 @@ fn op2j(o: &Op) -> Value {
         Op::Pop { c, key, right } => json!({"op": "pop", "c": c, "key": key, "right": right}),
         Op::Batch { c, key } => json!({"op": "batch", "c": c, "key": key}),
         Op::PushPush { c, key, right } => json!({"op": "pushpush", "c": c, "key": key, "right": right}),
+        Op::Retype { c, key } => json!({"op": "retype", "c": c, "key": key}),
         Op::Wait { ms } => json!({"op": "wait", "ms": ms}),
         Op::Stall { ms } => json!({"op": "stall", "ms": ms}),
         Op::Disconnect { c } => json!({"op": "disconnect", "c": c}),
@@ -616,6 +664,7 @@ fn j2op(v: &Value) -> Option<Op> {
         "pop" => Op::Pop { c: u("c") % NCLIENTS, key: u("key") % 3, right: b("right") },
         "batch" => Op::Batch { c: u("c") % NCLIENTS, key: u("key") % 3 },
         "pushpush" => Op::PushPush { c: u("c") % NCLIENTS, key: u("key") % 3, right: b("right") },
+        "retype" => Op::Retype { c: u("c") % NCLIENTS, key: u("key") % 3 },
         "wait" => Op::Wait { ms: u("ms") as u32 },
         "stall" => Op::Stall { ms: u("ms") as u32 },
         "disconnect" => Op::Disconnect { c: u("c") % NCLIENTS },
@@ -766,7 +815,7 @@ pub fn run(tier: Tier, seed: u64, replay: Option<Value>) -> i32 {
         tier,
         seed,
         "exploration",
-        "A: generated histories (3..25 operations) of four clients over three lists: BLPOP/BRPOP on 1-3 keys with timeout forever/0.06/0.2/0.4/1 s, LPUSH/RPUSH of 1, 2 or 4 unique elements sent directly, inside MULTI/EXEC or from a script, LPOP/RPOP, a pipelined RPUSH+LPOP batch, pushes to two different keys pipelined in one write, waits, stalls of the single-threaded server (so that several deadlines are met by one timeout sweep), and disconnects of blocked clients; operations are sequenced (two PING round trips on a control connection after each), finite deadlines nearer than 150 ms are waited out before the next operation, so a reference model of Redis' blocking semantics decides every reply: served first-blocked-first with the head (BLPOP) or tail (BRPOP) of the first non-empty key, within 8 s; nil never before the timeout on the harness clock and within 8 s after it; never nil for an infinite wait; nothing for a client to whom nothing is due; LRANGE of every list equals pushed minus delivered after every step; wind-down: all waiters are served by pushes, later pushes stay in their lists, every client answers PING, a later BLPOP runs its full timeout. B: unsequenced bursts (3 pushers, 5 blocking poppers, one of which disconnects while blocked) with the schedule-independent oracle only: no element delivered twice or invented, at most one element unaccounted for per disconnect. Non-trivial (A) = a client actually blocked and was served by a later push, timed out, registered on several keys, shared a multi-element push with another waiter, or disconnected while blocked; distinct by hash of the history",
+        "A: generated histories (3..25 operations) of four clients over three lists: BLPOP/BRPOP on 1-3 keys with timeout forever/0.06/0.2/0.4/1 s, LPUSH/RPUSH of 1, 2 or 4 unique elements sent directly, inside MULTI/EXEC or from a script, LPOP/RPOP, a pipelined RPUSH+LPOP batch, pushes to two different keys pipelined in one write, a pipelined LPUSH+DEL+SET that leaves a string where the wake-up expects a list, waits, stalls of the single-threaded server (so that several deadlines are met by one timeout sweep), and disconnects of blocked clients; operations are sequenced (two PING round trips on a control connection after each), finite deadlines nearer than 150 ms are waited out before the next operation, so a reference model of Redis' blocking semantics decides every reply: served first-blocked-first with the head (BLPOP) or tail (BRPOP) of the first non-empty key, within 8 s; nil never before the timeout on the harness clock and within 8 s after it; never nil for an infinite wait; nothing for a client to whom nothing is due; LRANGE of every list equals pushed minus delivered after every step; wind-down: all waiters are served by pushes, later pushes stay in their lists, every client answers PING, a later BLPOP runs its full timeout. B: unsequenced bursts (3 pushers, 5 blocking poppers, one of which disconnects while blocked) with the schedule-independent oracle only: no element delivered twice or invented, at most one element unaccounted for per disconnect. Non-trivial (A) = a client actually blocked and was served by a later push, timed out, registered on several keys, shared a multi-element push with another waiter, or disconnected while blocked; distinct by hash of the history",
     ));
     let mk = |_: usize| Server::start(ServerOpts::default());
     if let Some(r) = replay {
